@@ -185,7 +185,9 @@ private:
         u16 z = 0;
 
         u32 current_src = 0, current_dst = 0;
-        u16 counter0 = 0, counter1 = 0, counter2 = 0;
+        // wider than the 16-bit size registers: counter0 advances by 2 in double word mode and must
+        // be able to reach size0 == 0xFFFF instead of wrapping around
+        u32 counter0 = 0, counter1 = 0, counter2 = 0;
         u16 running = 0;
         u16 ahbm_channel = 0;
 
